@@ -36,9 +36,20 @@ Closure(tok, az) == Lfp(AuthFacts(tok, az), AuthRules(tok, az))
 \* scope of later block i: that closure plus the block's own facts and rules
 BlockClosure(tok, az, i) == Lfp(Closure(tok, az) \cup SeqSet(tok.blocks[i].f), tok.blocks[i].r)
 
-EvalFails(tok, az) ==
-    \/ RunFails(AuthFacts(tok, az), AuthRules(tok, az))
-    \/ \E i \in 1..Len(tok.blocks) : RunFails(Closure(tok, az) \cup SeqSet(tok.blocks[i].f), tok.blocks[i].r)
+\* run limits carried by the authorizer (and by every per-block world): [mf |-> maxFacts, mi |-> maxIterations]
+NoLimit == [mf |-> 1000000, mi |-> 1000000]
+LimOf(az) == IF "lim" \in DOMAIN az THEN az.lim ELSE NoLimit
+\* status of one evaluation under the limits: "fail" = must be refused, "ok" = must complete, "either" = a limit is reached exactly
+RunStatus(F, RR, lim) ==
+    IF RunFails(F, RR) THEN "fail"
+    ELSE LET k == Rounds(F, RR) n == Cardinality(Lfp(F, RR)) IN
+         IF k > lim.mi \/ n > lim.mf THEN "fail"
+         ELSE IF k = lim.mi \/ n = lim.mf THEN "either" ELSE "ok"
+RunStatuses(tok, az) ==
+    {RunStatus(AuthFacts(tok, az), AuthRules(tok, az), LimOf(az))}
+    \cup {RunStatus(Closure(tok, az) \cup SeqSet(tok.blocks[i].f), tok.blocks[i].r, LimOf(az)) : i \in 1..Len(tok.blocks)}
+EvalFails(tok, az) == "fail" \in RunStatuses(tok, az)
+EvalMayFail(tok, az) == "either" \in RunStatuses(tok, az)
 
 ChecksOK(tok, az) ==
     /\ AllHold(az.c, Closure(tok, az))
@@ -53,9 +64,10 @@ FirstMatch(ps, F) == IF \E i \in 1..Len(ps) : PolicyMatches(ps[i], F)
 \* the set of outcome classes the property allows (a singleton unless evaluation itself fails)
 RefVerdict(tok, az) ==
     IF EvalFails(tok, az) THEN {"other", "checkfail"}
-    ELSE IF ~ChecksOK(tok, az) THEN {"checkfail"}
-    ELSE LET k == FirstMatch(az.p, Closure(tok, az))
-         IN {CASE k = "allow" -> "ok" [] k = "deny" -> "denied" [] OTHER -> "nomatch"}
+    ELSE (IF EvalMayFail(tok, az) THEN {"other", "checkfail"} ELSE {})
+         \cup (IF ~ChecksOK(tok, az) THEN {"checkfail"}
+               ELSE LET k == FirstMatch(az.p, Closure(tok, az))
+                    IN {CASE k = "allow" -> "ok" [] k = "deny" -> "denied" [] OTHER -> "nomatch"})
 
 -----------------------------------------------------------------------------
 (* Part 2: the procedure of Authorizer.Authorize.  State:                  *)
@@ -65,10 +77,12 @@ RefVerdict(tok, az) ==
 
 CONSTANTS CloneBlockWorld, ResetRulesBeforeBlocks, PoliciesBeforeBlocks
 
-S0(az) == [world |-> SeqSet(az.f), rules |-> az.r, failed |-> {}, pol |-> "none", bw |-> <<>>, err |-> FALSE]
+S0(az) == [world |-> SeqSet(az.f), rules |-> az.r, failed |-> {}, pol |-> "none", bw |-> <<>>, err |-> FALSE, lim |-> LimOf(az)]
 
 LoadAuthority(s, tok) == [s EXCEPT !.world = @ \cup SeqSet(tok.auth.f), !.rules = @ \o tok.auth.r]
-RunWorld(s) == IF RunFails(s.world, s.rules) THEN [s EXCEPT !.err = TRUE]
+\* World.Run as coded: the loop runs i < maxIterations (k productive rounds need k+1 iterations) and stops at >= maxFacts
+HitsLimit(F, RR, lim) == Rounds(F, RR) >= lim.mi \/ Cardinality(Lfp(F, RR)) >= lim.mf
+RunWorld(s) == IF RunFails(s.world, s.rules) \/ HitsLimit(s.world, s.rules, s.lim) THEN [s EXCEPT !.err = TRUE]
                ELSE [s EXCEPT !.world = Lfp(@, s.rules)]
 FailedOf(cs, F, tag) == {<<tag, i>> : i \in {i \in 1..Len(cs) : ~CheckHolds(cs[i], F)}}
 AzChecks(s, az) == [s EXCEPT !.failed = @ \cup FailedOf(az.c, s.world, 0 - 1)]
@@ -81,7 +95,7 @@ BlockStep(s, tok, i) ==
     LET b  == tok.blocks[i]
         w0 == s.world \cup SeqSet(b.f)
         rs == s.rules \o b.r
-    IN IF RunFails(w0, rs) THEN [s EXCEPT !.err = TRUE]
+    IN IF RunFails(w0, rs) \/ HitsLimit(w0, rs, s.lim) THEN [s EXCEPT !.err = TRUE]      \* the block world inherits the limits
        ELSE LET w1 == Lfp(w0, rs)
             IN [s EXCEPT !.failed = @ \cup FailedOf(b.c, w1, i),
                          !.bw = Append(@, w1),
